@@ -147,7 +147,8 @@ def check_alias_roundtrip(fam, cls, s, o, rec, det, facts, field="x"):
     out = r.to_dict(**({"by_alias": True} if o["flag_by_alias"] else {}))
     want_alias = o["by_alias"] or o["flag_by_alias"]
     key = s if want_alias else field
-    if key not in out or out[key] != wire or len(out) != 2:
+    y_dropped = o["omit_default"] and o["default"]      # y == 1 equals its default
+    if key not in out or out[key] != wire or len(out) != (1 if y_dropped else 2):
         rec.violation(f"{facts['position']}:to_dict-did-not-write-the-exact-key", dict(det, observed=common.short(out), expected_key=key, source="".join(fam.sources[1:])[-1500:]), facts)
         return False
     if o["nullable"] and not o["conv"]:
@@ -231,6 +232,8 @@ def pos_typeddict_key(fam, rng, s, rec, det, facts):
 
 def pos_discr_class(fam, rng, s, rec, det, facts):
     from mashumaro.exceptions import MissingDiscriminatorError, SuitableVariantNotFoundError
+    if s in ("a", "b", "c"):
+        return True      # collides with a field name of the harness classes
     src = ("@dataclass\nclass R(DataClassDictMixin):\n    a: int = 0\n    class Config(BaseConfig):\n"
            "        discriminator = Discriminator(field=S, include_subtypes=True)\n"
            "@dataclass\nclass V1(R):\n    b: int = 1\n"
@@ -264,6 +267,8 @@ def pos_discr_class(fam, rng, s, rec, det, facts):
 
 def pos_discr_annotated(fam, rng, s, rec, det, facts):
     from mashumaro.codecs.basic import BasicDecoder
+    if s in ("a", "b", "c"):
+        return True
     src = ("@dataclass\nclass R:\n    a: int = 0\n"
            "@dataclass\nclass V1(R):\n    b: int = 1\n"
            "setattr(V1, S, 'one')\n"
@@ -309,14 +314,33 @@ def pos_forbid_keys(fam, rng, s, rec, det, facts):
     return True
 
 
+SWAP = str.maketrans({"'": '"', '"': "'", "+": "-", "-": "+", "{": "}", "}": "{", "\\": "/", "/": "\\", "#": "%", "%": "#",
+                      " ": ".", ".": " ", "\n": "\t", "\t": "\n", "(": ")", ")": "(", ",": ";", ";": ","})
+
+
 def pos_literal_str(fam, rng, s, rec, det, facts):
     from mashumaro.codecs.basic import BasicDecoder, BasicEncoder
-    src = "LIT = Literal[S, 'zz', 3]\n@dataclass\nclass M(DataClassDictMixin):\n    v: LIT\n    w: LIT = 'zz'\n"
+    # a second Literal type in the same class whose values differ from the first only in punctuation
+    s2 = s.translate(SWAP)
+    fam.module.S2 = s2
+    src = ("LIT = Literal[S, 'zz', 3]\nLIT2 = Literal[S2, '+', 4]\nLIT3 = Literal[S, '-', 4]\n"
+           "@dataclass\nclass M(DataClassDictMixin):\n    v: LIT\n    w: LIT = 'zz'\n    p: LIT2 = '+'\n    q: LIT3 = '-'\n")
     if not build(fam, src, rec, det, facts):
         return False
     m = fam.module
     if s == "zz":
         return True
+    r0 = m.M.from_dict({"v": s, "p": s2, "q": "-"})
+    if r0.p != s2 or r0.q != "-":
+        rec.violation("literal_str:sibling-literal-confused", dict(det, observed=common.short(r0)), facts)
+        return False
+    for bad in ({"v": s, "p": "-"}, {"v": s, "q": "+"}):
+        try:
+            m.M.from_dict(bad)
+            rec.violation("literal_str:sibling-literal-value-accepted", dict(det, input=common.short(bad)), facts)
+            return False
+        except Exception:
+            pass
     r = m.M.from_dict({"v": s})
     out = m.M(s).to_dict()
     r2 = BasicDecoder(m.LIT).decode(s)
